@@ -23,3 +23,9 @@ claim("C09",
   "Same generator as C08 with bid/cancel/accept weighted up, two denominations, zero-amount bids, bids on unregistered names; invariant after every message: rns module account (all denoms) equals the sum of open bids read from the store; cancel returns exactly the slot's outstanding escrow, accept pays the owner exactly that and removes the bid, other messages leave the module balance unchanged. The rebid-without-refund defect found this way is fixed in /repo (b47bad51).",
   "Outstanding escrow per (bidder,name) is tracked from observed balance changes; fork mode without ante handler.",
   "DESIGN.md section 4 C09")
+
+claim("C16",
+  "property-based test (rapid) over registration histories on a fork of the real app with an exact big.Int price/expiry oracle",
+  "Histories of 1-6 RegisterName messages with colliding names, both TLDs, ordinary and arithmetic-boundary year counts, poor and rich registrants, heights before/at/long after the previous expiry. Oracle per message: failure moves no funds; success debits exactly Y x yearly(len,tld) to the protocol-liquidity account and nobody else, the name resolves to the registrant, expiry >= height + Y x 5,484,530 (exactly old + Y x 5,484,530 for a live renewal), live names are refused to non-owners. Three defects found this way (expired-name terms, int64 wrap) are fixed in /repo (aee1d769) and replayed as plain regression cases on every run.",
+  "The price table is copied into the oracle; height == Expires is accepted under either reading; fork mode without ante handler.",
+  "DESIGN.md section 4 C16")
